@@ -283,6 +283,7 @@ func Run(tier string, seed int64, outDir string) *common.Meta {
 
 	// ---------- 3. end-to-end runs of both binaries ----------
 	nRuns := endToEnd(meta, tier, rng, outDir)
+	nRuns += flagsStage(meta, outDir)
 	nRuns += plantedStage(meta, tier, common.NewRand(seed, "c16-planted"), outDir)
 
 	meta.Evaluations = 2*len(cases) + nRuns
